@@ -39,6 +39,7 @@
   respects the upward rule (if the new head is `acqUp c`, it is above every held instance of `c`); it is needed,
   see the example after (a'').
 -/
+import CachedProofs.LayerB.Theorems
 import CachedProofs.Lemmas.Locks
 
 namespace Cached
